@@ -226,6 +226,7 @@ pub fn run(ctx: &Ctx, rep: &mut Report) {
         return;
     }
     let is_async_prop = prop == "C08";
+    let mut susp: std::collections::HashSet<(char, usize)> = std::collections::HashSet::new();
     ctx.for_cases(rep, |idx, rep| {
         let mut rng = Rng::derive(ctx.seed, idx, hash_str(&prop) ^ hash_str(&ctx.sub));
         let (si, mut b, mode): (usize, Built, &str);
@@ -493,6 +494,21 @@ pub fn run(ctx: &Ctx, rep: &mut Report) {
             rep.add("polls", t.polls as u64);
             rep.max("max:polls-to-completion", t.polls as u64);
             rep.add("injected-pendings", t.wlog.events.iter().filter(|e| e.2 == -2).count() as u64);
+            // suspension points: (pipe call kind, stream position at which the task was suspended)
+            let mut pos = 0usize;
+            for e in &t.wlog.events {
+                if e.2 > 0 && e.0 == 'w' {
+                    pos += e.2 as usize;
+                }
+                if e.2 == -2 {
+                    rep.count(match e.0 {
+                        'w' => "pending:poll_write",
+                        'r' => "pending:poll_read",
+                        _ => "pending:poll_flush",
+                    });
+                    susp.insert((e.0, pos.min(255)));
+                }
+            }
         }
         rep.key(mix(
             hash_str(vt.name)
@@ -740,4 +756,5 @@ pub fn run(ctx: &Ctx, rep: &mut Report) {
         }
         rep.sample(4, || cj(&t).set("expected", J::s(format!("{:?}", expected_c10))));
     });
+    rep.add("max:distinct-suspension-points(kind,stream-position)", susp.len() as u64);
 }
